@@ -218,3 +218,7 @@ Proof.
   - intros z Hz. apply in_map_iff in Hz. destruct Hz as [y [<- Hy]]. apply in_rev in Hy. left.
     unfold row_obs, row_task. apply Hb. exact Hy.
 Qed.
+
+(* the first |a| elements of a ++ b *)
+Lemma c09_firstn_app_exact {A} (a b : list A) : firstn (length a) (a ++ b) = a.
+Proof. rewrite firstn_app, Nat.sub_diag, firstn_all. simpl. apply app_nil_r. Qed.
